@@ -182,3 +182,17 @@ def cmp_other(test: ast.AST, a: str, op: str):
     if r == a and o == _MIRROR[op]:
         return l
     return None
+
+
+def else_part(fnode: ast.AST, i: ast.If) -> List[ast.stmt]:
+    """statements executed when the test of `i` is false: its orelse, or - when the body ends with return/raise/continue/break
+    (canonical form after normalisation) - the statements following `i` in its block"""
+    if i.orelse:
+        return list(i.orelse)
+    if i.body and isinstance(i.body[-1], (ast.Return, ast.Raise, ast.Continue, ast.Break)):
+        for n in ast.walk(fnode):
+            for fld in ("body", "orelse", "finalbody"):
+                blk = getattr(n, fld, None)
+                if isinstance(blk, list) and i in blk:
+                    return list(blk[blk.index(i) + 1:])
+    return []
